@@ -230,6 +230,22 @@ func (e *vlEnv) buildTx(t *vlTx, cidHash []byte) *types.Tx {
 		body.Type = types.TxType_GOVERNANCE
 		body.Recipient = []byte(types.AergoSystem)
 		body.Payload = []byte(`{"Name":"v1unstake"}`)
+	case "votebp":
+		body.Type = types.TxType_GOVERNANCE
+		body.Recipient = []byte(types.AergoSystem)
+		body.Payload = []byte(`{"Name":"v1voteBP","Args":["16Uiu2HAmBDcLEjBYeEnGU2qDD1KdpEdwDBtN7gqXzNZbHXo8Q841"]}`)
+	case "entappend":
+		body.Type = types.TxType_GOVERNANCE
+		body.Recipient = []byte(types.AergoEnterprise)
+		body.Payload = []byte(`{"Name":"appendAdmin","Args":["` + e.addrString(t.Dest) + `"]}`)
+	case "entremove":
+		body.Type = types.TxType_GOVERNANCE
+		body.Recipient = []byte(types.AergoEnterprise)
+		body.Payload = []byte(`{"Name":"removeAdmin","Args":["` + e.addrString(t.Dest) + `"]}`)
+	case "entconf":
+		body.Type = types.TxType_GOVERNANCE
+		body.Recipient = []byte(types.AergoEnterprise)
+		body.Payload = []byte(fmt.Sprintf(`{"Name":"setConf","Args":["verifkey","v%d"]}`, t.Name))
 	case "namecreate":
 		body.Type = types.TxType_GOVERNANCE
 		body.Recipient = []byte(types.AergoName)
@@ -261,9 +277,10 @@ type vlAcc struct {
 	Ex    bool   `json:"x"` // present in state
 }
 type vlStk struct {
-	Amt  string `json:"a"`
-	When uint64 `json:"w"`
-	Ex   bool   `json:"x"`
+	Amt   string `json:"a"`
+	When  uint64 `json:"w"`
+	Ex    bool   `json:"x"`
+	Voted bool   `json:"v"` // has a BP vote record
 }
 type vlDump struct {
 	Acc   map[string]vlAcc  `json:"acc"`
@@ -271,6 +288,7 @@ type vlDump struct {
 	Total string            `json:"total"`
 	Names map[string][2]int `json:"names"`
 	Cst   map[string]int64  `json:"cst"`
+	Ent   string            `json:"ent"` // aergo.enterprise: admin ids and the verifkey conf (raw, hex)
 }
 
 func (e *vlEnv) dump(sdb *statedb.StateDB) *vlDump {
@@ -297,7 +315,8 @@ func (e *vlEnv) dump(sdb *statedb.StateDB) *vlDump {
 		}
 		data, _ := scs.GetData(dbkey.SystemStaking(e.addr(id)))
 		s, _ := system.GetStaking(scs, e.addr(id))
-		d.Stk[fmt.Sprint(id)] = vlStk{Amt: s.GetAmountBigInt().String(), When: s.GetWhen(), Ex: len(data) != 0}
+		vdata, _ := scs.GetData(dbkey.SystemVote([]byte(types.OpvoteBP.ID()), e.addr(id)))
+		d.Stk[fmt.Sprint(id)] = vlStk{Amt: s.GetAmountBigInt().String(), When: s.GetWhen(), Ex: len(data) != 0, Voted: len(vdata) != 0}
 	}
 	tot, _ := system.GetStakingTotal(scs)
 	d.Total = tot.String()
@@ -308,6 +327,15 @@ func (e *vlEnv) dump(sdb *statedb.StateDB) *vlDump {
 	for _, nid := range e.c.Names {
 		o, dst := vlNameMap(ncs, e.addr(nid))
 		d.Names[fmt.Sprint(nid)] = [2]int{e.idOf(o), e.idOf(dst)}
+	}
+	if ecs, err := statedb.GetEnterpriseAccountState(sdb); err == nil {
+		adm, _ := ecs.GetData(dbkey.EnterpriseAdmins())
+		ids := []int{}
+		for i := 0; i+types.AddressLength <= len(adm); i += types.AddressLength {
+			ids = append(ids, e.idOf(adm[i:i+types.AddressLength]))
+		}
+		cf, _ := ecs.GetData(dbkey.EnterpriseConf([]byte("verifkey")))
+		d.Ent = fmt.Sprintf("%v/%x", ids, cf)
 	}
 	for _, ck := range e.c.CKeys {
 		a := e.addr(int(ck[0]))
@@ -580,6 +608,9 @@ func (e *vlEnv) runCase(w *bufio.Writer) {
 		}
 		run := func(sel []int, observe bool) (*state.BlockState, []int, bool) {
 			bs := cs.sdb.NewBlockState(root, state.SetPrevBlockHash(bi.PrevBlockHash))
+			if scs0, err := statedb.GetSystemAccountState(bs.StateDB); err == nil {
+				system.InitVotingPowerRank(scs0) // the rank is a global outside the state DB (F12): start from the pre-state
+			}
 			bs.SetGasPrice(gp)
 			bs.Receipts().SetHardFork(cs.cfg.Hardfork, bi.No)
 			exec := NewTxExecutor(context.Background(), nil, cs.cdb, bi, contract.BlockFactory)
